@@ -81,6 +81,14 @@ def pProd (j : Json) : Prod :=
   | some "include" => .missingInclude
   | _ => .syntaxError
 
+partial def pItem (j : Json) : MofItem :=
+  match getStr j "k" with
+  | some "pragma_ns" => .pragmaNamespace (gName j "ns")
+  | some "bad_pragma" => .badPragmaNamespace
+  | some "other_pragma" => .otherPragma
+  | some "include_file" => .include ((getArr j "items").map pItem)
+  | _ => .prod (pProd j)
+
 def pOp (j : Json) : Option Op :=
   let ns := gName j "ns"
   match getStr j "op" with
@@ -90,13 +98,14 @@ def pOp (j : Json) : Option Op :=
   | some "setQualifier" => some (.setQualifier ns (pQualDecl (getField j "qual")))
   | some "deleteQualifier" => some (.deleteQualifier ns (gName j "name"))
   | some "createInstance" => some (.createInstance ns (pInst (getField j "inst")))
-  | some "modifyInstance" => some (.modifyInstance ns (pPath (getField j "path")) (pInst (getField j "inst")))
+  | some "modifyInstance" => some (.modifyInstance ns (pPath (getField j "path")) (pInst (getField j "inst"))
+      (match getField j "pl" with | .null => none | _ => some ((getArr j "pl").filterMap jsonToChars?)))
   | some "deleteInstance" => some (.deleteInstance ns (pPath (getField j "path")))
   | some "addNamespace" => some (.addNamespace ns)
   | some "removeNamespace" => some (.removeNamespace ns)
   | some "addObjects" => some (.addObjects ns ((getArr j "objs").map pObj))
   | some "addObject" => some (.addObject ns (pObj (getField j "obj")))
-  | some "compileMof" => some (.compileMof ns ((getArr j "prods").map pProd))
+  | some "compileMof" => some (.compileMofItems ns ((getArr j "prods").map pItem))
   | _ => none
 
 /-! output -/
@@ -145,12 +154,29 @@ def jState (s : State) : Json :=
                 ("quals", Json.arr (r.quals.map jQualDecl).toArray),
                 ("insts", Json.arr (r.insts.map jInst).toArray)])).toArray)]
 
+def pCmd (j : Json) : Option Cmd :=
+  match getStr j "op" with
+  | some "installNsProvider" => some (.installNsProvider (gName j "ns"))
+  | some "installUserProvider" =>
+    let names := fun k => (getArr j k).filterMap jsonToChars?
+    let exc : PyExc := match getStr j "exc" with
+      | some "ValueError" => .valueError
+      | some "TypeError" => .typeError
+      | some "KeyError" => .keyError
+      | some "OSError" => .osError
+      | some "CIMError" => .cimError ((getNat j "code").getD 1)
+      | _ => .valueError
+    some (.installUserProvider { ns := gName j "ns", cls := gName j "cls", trigger := gName j "trigger",
+                                 rejCreate := names "rej_create", rejModify := names "rej_modify",
+                                 rejDelete := names "rej_delete", exc := exc })
+  | _ => (pOp j).map Cmd.op
+
 def handle (j : Json) : Json :=
-  match (getArr j "ops").mapM pOp with
+  match (getArr j "ops").mapM pCmd with
   | none => Json.mkObj [("bad", "op")]
   | some ops =>
     let s0 : State := { nss := ((getArr j "nss").filterMap jsonToChars?).map (fun n => { name := n }) }
-    let steps := runOps s0 ops
+    let steps := runCmds s0 ops
     Json.mkObj [("steps", Json.arr (steps.map (fun r =>
       Json.mkObj [("exc", match r.2 with | none => Json.null | some e => e.toJson), ("state", jState r.1)])).toArray)]
 
